@@ -53,6 +53,17 @@ def representations(args):
             try:
                 if k.thumbprint() != R.thumbprint(base, dg):
                     bad.append((kind, "digest:" + dg, k.thumbprint(), R.thumbprint(base, dg)))
+                # an automatically assigned kid is that thumbprint, whichever way it gets assigned
+                from joserfc.jwk import KeySet
+                k.ensure_kid()
+                k2 = JWKRegistry.import_key(json.loads(json.dumps(R.public_jwk(base) if base["kty"] != "oct" else base)))
+                ks = KeySet([k2])
+                k3 = type(k).generate_key(auto_kid=True)
+                for how, key, ref in (("ensure_kid", k, base), ("KeySet", ks.keys[0], base), ("KeySet.as_dict", None, base),
+                                      ("generate_key(auto_kid)", k3, k3.as_dict(private=True))):
+                    kid = key.kid if key is not None else ks.as_dict(private=None if base["kty"] == "oct" else False)["keys"][0].get("kid")
+                    if kid != R.thumbprint(ref, dg):
+                        bad.append((kind, f"digest:{dg}:auto-kid via {how}", str(kid), R.thumbprint(ref, dg)))
             finally:
                 type(k).thumbprint_digest_method = old
     return bad, n * 8
@@ -63,6 +74,8 @@ def run(ctx: Ctx) -> None:
     pts, _ = wirecheck.validate(ctx, 60 if thorough else 12)
     ctx.notes["wire_points_tlc_vs_refimpl"] = pts
     jwkchains.execute(ctx, "C13")
+    from . import jwkheap
+    jwkheap.run(ctx, "C13")
     kinds = [k for ks in jwkchains.KINDS.values() for k in ks]
     res = pmap(representations, [(k, 40 if thorough else 6, ctx.seed) for k in kinds], procs=8)
     for bad, n in res:
